@@ -2,7 +2,9 @@ package sim
 
 import (
 	"bytes"
+	"crypto/ecdsa"
 	"encoding/hex"
+	"encoding/json"
 	"fmt"
 	"github.com/xuperchain/xupercore/bcs/ledger/xledger/state/xmodel"
 	"math/big"
@@ -48,7 +50,7 @@ func GenTxPlan(rt *rapid.T, tier string) *TxPlan {
 		n = rapid.IntRange(1, 6).Draw(rt, "nforms2")
 	}
 	for i := 0; i < n; i++ {
-		f := TxForm{Kind: rapid.SampledFrom([]string{"transfer", "transfer", "multi", "kvtx", "account", "unauthorised"}).Draw(rt, "kind")}
+		f := TxForm{Kind: rapid.SampledFrom([]string{"transfer", "transfer", "multi", "kvtx", "account", "unauthorised", "xsign"}).Draw(rt, "kind")}
 		f.Ver = rapid.IntRange(1, 3).Draw(rt, "ver")
 		f.A = rapid.IntRange(0, 2).Draw(rt, "a")
 		f.B = rapid.IntRange(0, 5).Draw(rt, "b")
@@ -151,8 +153,43 @@ func detMarshal(m proto.Message) []byte {
 // signer) still has a valid signature over the transaction's digest somewhere it is looked for.
 func stillAuthorised(tx *lpb.Transaction) bool {
 	d, err := txhash.MakeTxDigestHash(tx)
-	if err != nil || tx.XuperSign != nil {
+	if err != nil {
 		return false
+	}
+	if tx.XuperSign != nil {
+		// aggregated form: one key per distinct address (initiator first), each bound to its address, and a
+		// multi-signature (the only type that involves every key) that verifies under all of them
+		addrs := []string{tx.Initiator}
+		for _, ar := range tx.AuthRequire {
+			parts := strings.Split(ar, "/")
+			dup := false
+			for _, a := range addrs {
+				dup = dup || a == parts[len(parts)-1]
+			}
+			if !dup {
+				addrs = append(addrs, parts[len(parts)-1])
+			}
+		}
+		if len(addrs) != len(tx.XuperSign.PublicKeys) {
+			return false
+		}
+		var keys []*ecdsa.PublicKey
+		for i, pj := range tx.XuperSign.PublicKeys {
+			k, err := Crypto.GetEcdsaPublicKeyFromJsonStr(string(pj))
+			if err != nil {
+				return false
+			}
+			if ok, _ := Crypto.VerifyAddressUsingPublicKey(addrs[i], k); !ok {
+				return false
+			}
+			keys = append(keys, k)
+		}
+		var st struct{ SigType string }
+		if json.Unmarshal(tx.XuperSign.Signature, &st) != nil || st.SigType != "MultiSig" {
+			return false
+		}
+		ok, err := Crypto.VerifyXuperSignature(keys, tx.XuperSign.Signature, d)
+		return err == nil && ok
 	}
 	validBy := func(addr string, si *pb.SignatureInfo) bool {
 		if si == nil {
@@ -352,6 +389,34 @@ func (r *txRun) buildForm(f *TxForm) (*lpb.Transaction, []*Acct, *Acct) {
 		sp := &TxSpec{From: a, Version: int32(f.Ver), Inputs: []UtxoRef{x, y}, Outs: []OutSpec{{To: Accts[3].Addr, Amount: tot}}, AuthRequire: []string{a.Addr, b.Addr}, Signers: []*Acct{a, b}}
 		tx, err := BuildTx(sp)
 		if err != nil {
+			return nil, nil, nil
+		}
+		return tx, []*Acct{a, b}, a
+	case "xsign":
+		// inputs of two owners authorised by ONE aggregated signature (the crypto client's multi-signature
+		// over the sum of the public keys) in the XuperSign field instead of the two signature lists
+		a, b := Accts[f.A%3], Accts[(f.A+1)%3]
+		ua, ub := r.spendable(a.Addr), r.spendable(b.Addr)
+		if len(ua) == 0 || len(ub) == 0 {
+			return nil, nil, nil
+		}
+		x, y := ua[f.B%len(ua)], ub[f.C%len(ub)]
+		tot := new(big.Int).Add(x.Amount, y.Amount)
+		tx, err := BuildTx(&TxSpec{From: a, Version: int32(f.Ver), Inputs: []UtxoRef{x, y}, Outs: []OutSpec{{To: Accts[3].Addr, Amount: tot}}, AuthRequire: []string{a.Addr, b.Addr}, Signers: []*Acct{a, b}})
+		if err != nil {
+			return nil, nil, nil
+		}
+		tx.InitiatorSigns, tx.AuthRequireSigns = nil, nil
+		dg, err := txhash.MakeTxDigestHash(tx)
+		if err != nil {
+			return nil, nil, nil
+		}
+		sig, err := Crypto.MultiSign([]*ecdsa.PrivateKey{a.SK, b.SK}, dg)
+		if err != nil {
+			panic(fmt.Sprintf("c07: multi-sign: %v", err))
+		}
+		tx.XuperSign = &lpb.XuperSignature{PublicKeys: [][]byte{[]byte(a.Pub), []byte(b.Pub)}, Signature: sig}
+		if tx.Txid, err = txhash.MakeTransactionID(tx); err != nil {
 			return nil, nil, nil
 		}
 		return tx, []*Acct{a, b}, a
@@ -623,6 +688,39 @@ func (r *txRun) doUnauthorised(f *TxForm) *Violation {
 			}
 			return nil
 		}
+		if f.A%2 == 0 && f.C%3 == 2 {
+			// ... with the owner merely LISTED: initiator thief, owner named as required signer, and one
+			// aggregated-signature field holding both public keys but only the thief's plain signature
+			victim := Accts[0]
+			tx, err := BuildTx(&TxSpec{From: thief, Version: int32(f.Ver), Inputs: []UtxoRef{u}, Outs: []OutSpec{{To: thief.Addr, Amount: u.Amount}}, NoChange: true, AuthRequire: []string{victim.Addr}, Signers: []*Acct{thief}})
+			if err != nil {
+				return nil
+			}
+			tx.InitiatorSigns, tx.AuthRequireSigns = nil, nil
+			dg, err := txhash.MakeTxDigestHash(tx)
+			if err != nil {
+				return nil
+			}
+			sig, err := Crypto.SignECDSA(thief.SK, dg)
+			if err != nil {
+				return nil
+			}
+			tx.XuperSign = &lpb.XuperSignature{PublicKeys: [][]byte{[]byte(thief.Pub), []byte(victim.Pub)}, Signature: sig}
+			if tx.Txid, err = txhash.MakeTransactionID(tx); err != nil {
+				return nil
+			}
+			r.rc.St.Probes["unauthorised-spend-tried"]++
+			r.rc.St.Probes["aggregate-field-with-single-signature-tried"]++
+			tw, err := n.Twin()
+			if err != nil {
+				panic(err)
+			}
+			defer tw.Drop()
+			if tw.Chain.SubmitTx(tw.BaseCtx(), CloneTx(tx)) == nil {
+				return r.viol("unauthorised-spend-admitted", "a spend of another address's output whose aggregated-signature field lists the owner's public key but holds only the initiator's plain ECDSA signature was admitted: %s", descTx(tx))
+			}
+			return nil
+		}
 		return try("a spend of another address's output", &TxSpec{From: thief, Version: int32(f.Ver), Inputs: []UtxoRef{u}, Outs: []OutSpec{{To: thief.Addr, Amount: u.Amount}}, NoChange: true})
 	case 1: // threshold account, one of two 0.6-weight keys against a threshold of 1.0
 		if !r.ensureAccount() {
@@ -751,8 +849,11 @@ func (r *txRun) doForm(f *TxForm) *Violation {
 			}
 		}
 	}
-	// signature operators
+	// signature operators (on the two signature lists; the aggregated form has none)
 	other := Accts[(ini.Idx+1)%len(Accts)]
+	if tx.XuperSign != nil {
+		other = nil
+	}
 	sigOps := []struct {
 		name string
 		f    func(m *lpb.Transaction)
@@ -782,6 +883,9 @@ func (r *txRun) doForm(f *TxForm) *Violation {
 		{"initiator signature removed", func(m *lpb.Transaction) { m.InitiatorSigns = nil }},
 	}
 	for _, so := range sigOps {
+		if other == nil {
+			break
+		}
 		m := CloneTx(tx)
 		so.f(m)
 		m.Txid, _ = txhash.MakeTransactionID(m)
@@ -800,7 +904,9 @@ func (r *txRun) doForm(f *TxForm) *Violation {
 		return r.viol("honest-tx-rejected", "honest %s transaction (version %d) refused by SubmitTx: %v | %s", f.Kind, tx.Version, err, descTx(tx))
 	}
 	r.rc.St.Probes["honest-admitted-"+f.Kind]++
-	r.prevSig[signers[0].Addr] = tx.InitiatorSigns[0]
+	if len(tx.InitiatorSigns) > 0 {
+		r.prevSig[signers[0].Addr] = tx.InitiatorSigns[0]
+	}
 	if f.Mine {
 		time.Sleep(time.Second)
 		if _, err := r.n.Mine(MineOpts{MaxTx: -1}); err != nil {
